@@ -14,7 +14,16 @@ int main(int argc, char** argv) {
     Rng r(seed);
     for (int k = 0; k < nsys; ++k) {
         RandSystem rs; int nb = r.I(1, maxb); int shape = r.I(0, 2);
-        try { rs.build(r, nb, shape); } catch (const std::exception& e) { continue; }
+        try {
+            if (k % 5 == 4) {   // simbody's special lone-particle node: childless Translation on Ground, identity frames, COM at origin
+                int np = r.I(1, 3);
+                for (int i = 0; i < np; ++i) {
+                    MobilizedBody::Translation(rs.matter.updGround(), Transform(), Body::Rigid(MassProperties(r.U(0.2, 3), Vec3(0), Inertia(0))), Transform());
+                    rs.types.push_back(10); rs.revs.push_back(false);
+                }
+                rs.build(r, 1, 0);
+            } else rs.build(r, nb, shape);
+        } catch (const std::exception& e) { continue; }
         State& s = rs.state; const SimbodyMatterSubsystem& m = rs.matter;
         rs.sys.realize(s, Stage::Dynamics);
         int nu = s.getNU(), NB = m.getNumBodies();
@@ -36,6 +45,22 @@ int main(int argc, char** argv) {
           Vector_<Vec3> JSW; m.multiplyByStationJacobian(s, tb, ts, W, JSW); Vector JSTf; m.multiplyByStationJacobianTranspose(s, tb, ts, tf, JSTf);
           Real a = 0; for (int i = 0; i < nt; ++i) a += ~tf[i] * JSW[i]; Real b2 = nu ? ~JSTf * W : 0;
           chk("C04", "station <f,JSw>=<JStf,w>", std::abs(a - b2), std::abs(a), seed, k, rs);
+          // frame Jacobian: adjoint with repeated bodies, operator vs explicit matrix and its transpose
+          Vector_<SpatialVec> tF(nt); for (int i = 0; i < nt; ++i) tF[i] = SpatialVec(r.v3(), r.v3());
+          Vector_<SpatialVec> JFW; m.multiplyByFrameJacobian(s, tb, ts, W, JFW); Vector JFTF; m.multiplyByFrameJacobianTranspose(s, tb, ts, tF, JFTF);
+          Real fa = 0; for (int i = 0; i < nt; ++i) fa += ~tF[i] * JFW[i]; Real fb = nu ? ~JFTF * W : 0;
+          chk("C04", "frame <F,JFw>=<JFtF,w>", std::abs(fa - fb), std::abs(fa), seed, k, rs);
+          Matrix JF; m.calcFrameJacobian(s, tb, ts, JF); Vector JFm = JF * W; e = 0;
+          for (int i = 0; i < nt; ++i) for (int c = 0; c < 6; ++c) e += std::abs(JFm[6 * i + c] - (c < 3 ? JFW[i][0][c] : JFW[i][1][c - 3]));
+          chk("C04", "explicit-frame-J*w=operator", e, JFm.norm(), seed, k, rs);
+          if (nu) { Vector Fflat(6 * nt); for (int i = 0; i < nt; ++i) for (int c = 0; c < 6; ++c) Fflat[6 * i + c] = c < 3 ? tF[i][0][c] : tF[i][1][c - 3];
+                    Vector JtF = ~JF * Fflat; chk("C04", "explicit-frame-Jt*F=transpose-operator", (JtF - JFTF).norm(), JtF.norm(), seed, k, rs);
+                    Vector JStf_m; Matrix JS0; m.calcStationJacobian(s, tb, ts, JS0); Vector fflat(3 * nt); for (int i = 0; i < nt; ++i) for (int c = 0; c < 3; ++c) fflat[3 * i + c] = tf[i][c];
+                    JStf_m = ~JS0 * fflat; chk("C04", "explicit-station-Jt*f=transpose-operator", (JStf_m - JSTf).norm(), JStf_m.norm(), seed, k, rs); }
+          // station/frame velocities reported by the state equal J applied to the state's own u
+          Vector_<Vec3> JSU; m.multiplyByStationJacobian(s, tb, ts, s.getU(), JSU); e = 0; sc = 0;
+          for (int i = 0; i < nt; ++i) { Vec3 v = m.getMobilizedBody(tb[i]).findStationVelocityInGround(s, ts[i]); e += (v - JSU[i]).norm(); sc += v.norm(); }
+          chk("C04", "JS*u=reported-station-velocities", e, sc, seed, k, rs);
           Matrix JS; m.calcStationJacobian(s, tb, ts, JS); Vector JSm = JS * W; e = 0; for (int i = 0; i < nt; ++i) for (int c = 0; c < 3; ++c) e += std::abs(JSm[3 * i + c] - JSW[i][c]);
           chk("C04", "explicit-station-J*w=operator", e, JSm.norm(), seed, k, rs);
         }
